@@ -1,5 +1,5 @@
 (* Model/Zip.v — transcription of zipfs/fs.go and zipfs/file.go.
-   archive/zip is trusted: zip.File.Open() is a reader that yields exactly the aentry's bytes
+   archive/zip is trusted: zip.File.Open() is a reader that yields exactly the entry's bytes
    (Store and Deflate alike) and UncompressedSize64 is their number.
 
    The model has a switch [legacy].  legacy = true is the code as it stands in /repo today;
@@ -16,7 +16,7 @@ Local Open Scope Z_scope.
 Definition zip_add (ix : index) (e : aentry) : index :=
   let '(d, f) := splitpath (ename e) in
   let ix1 := idx_ensure d ix in
-  let ix2 := idx_put_first d f e ix1 in                     (* the first aentry of a name wins *)
+  let ix2 := idx_put_first d f e ix1 in                     (* the first entry of a name wins *)
   if eisdir e then idx_ensure (join2 d f) ix2 else ix2.
 
 Definition zip_new (legacy : bool) (a : archive) : index :=
